@@ -344,12 +344,21 @@ func (m *Mint) GetMintQuoteState(quoteId string) (storage.MintQuote, error) {
 
 		if status.Settled {
 			m.logInfof("mint quote '%v' with invoice payment hash '%v' was paid", mintQuote.Id, mintQuote.PaymentHash)
-			mintQuote.State = nut04.Paid
-			err := m.db.UpdateMintQuoteState(mintQuote.Id, mintQuote.State)
+			// only move the quote to paid if it is still unpaid. It could have been
+			// updated (and even issued) by another request or by the invoice subscription
+			updated, err := m.db.CompareAndSetMintQuoteState(mintQuote.Id, nut04.Unpaid, nut04.Paid)
 			if err != nil {
 				errmsg := fmt.Sprintf("error updating mint quote in db: %v", err)
 				return storage.MintQuote{}, cashu.BuildCashuError(errmsg, cashu.DBErrCode)
 			}
+			if !updated {
+				mintQuote, err = m.db.GetMintQuote(quoteId)
+				if err != nil {
+					return storage.MintQuote{}, cashu.QuoteNotExistErr
+				}
+				return mintQuote, nil
+			}
+			mintQuote.State = nut04.Paid
 
 			jsonQuote, _ := json.Marshal(mintQuote)
 			m.publisher.Publish(BOLT11_MINT_QUOTE_TOPIC, jsonQuote)
@@ -377,14 +386,18 @@ func (m *Mint) MintTokens(mintTokensRequest nut04.PostMintBolt11Request) (cashu.
 	case nut04.Pending:
 		return nil, cashu.QuotePending
 	case nut04.Paid:
-		err := func() error {
-			// set quote as pending while validating blinded messages and signing
-			err = m.db.UpdateMintQuoteState(mintQuote.Id, nut04.Pending)
-			if err != nil {
-				errmsg := fmt.Sprintf("error mint quote state: %v", err)
-				return cashu.BuildCashuError(errmsg, cashu.DBErrCode)
-			}
+		// set quote as pending while validating blinded messages and signing.
+		// Only one request can move the quote from paid to pending.
+		acquired, err := m.db.CompareAndSetMintQuoteState(mintQuote.Id, nut04.Paid, nut04.Pending)
+		if err != nil {
+			errmsg := fmt.Sprintf("error mint quote state: %v", err)
+			return nil, cashu.BuildCashuError(errmsg, cashu.DBErrCode)
+		}
+		if !acquired {
+			return nil, cashu.QuotePending
+		}
 
+		err = func() error {
 			blindedMessages := mintTokensRequest.Outputs
 			blindedMessagesAmount, err := blindedMessages.AmountChecked()
 			if err != nil {
